@@ -194,7 +194,8 @@ fn eth_call_u256(inst: &mut Inst, to: Address, data: Vec<u8>) -> Option<U256> {
     Some(U256::from_be_slice(&b[..32]))
 }
 
-const SPELLINGS: &[&str] = &["ordi", "ORDI", "OrDi", "x", "X"];
+// spellings include cased letters outside ASCII: "any bytes, any case"
+const SPELLINGS: &[&str] = &["ordi", "ORDI", "OrDi", "x", "X", "äbΩ", "ÄBω", "ÄBΩ"];
 
 fn check_ledger(inst: &mut Inst, world: &World) -> Vec<(String, String)> {
     let mut m = Model { bal: BTreeMap::new(), tokens: Vec::new(), findings: Vec::new() };
@@ -290,6 +291,8 @@ pub fn scenarios(tier: &str) -> Vec<Scenario> {
         m_block("B(dep p2 ordi 0, dep p2 x 2)", vec![dep(2, "ordi", "0x0"), dep(2, "x", "0x2")]),
         m_block("B(dep p2 ordi MAX)", vec![dep(2, "ordi", max)]),
         m_block("B(wd p1 OrDi 2)", vec![wd(1, "OrDi", "0x2")]),
+        m_block("B(dep p1 ÄBΩ 3, wd p1 äbω 1)", vec![dep(1, "ÄBΩ", "0x3"), wd(1, "äbω", "0x1")]),
+        m_block("B(dep p2 äbΩ 2)", vec![dep(2, "äbΩ", "0x2")]),
         m_block("B(wd p1 ordi 9, wd p2 x 1)", vec![wd(1, "ordi", "0x9"), wd(2, "x", "0x1")]),
         m_block("B(p1 approve ctl, ctl.transfer p2 2)", vec![
             call_ctl(1, ctl::approveCall { ticker: t("ordi"), spender: controller(), value: U256::MAX }.abi_encode()),
